@@ -268,10 +268,13 @@ void* _mi_heap_realloc_zero(mi_heap_t* heap, void* p, size_t newsize, bool zero)
   }
   void* newp = mi_heap_malloc(heap,newsize);
   if mi_likely(newp != NULL) {
-    if (zero && newsize > size) {
+    if (zero) {
       // also set last word in the previous allocation to zero to ensure any padding is zero-initialized
-      const size_t start = (size >= sizeof(intptr_t) ? size - sizeof(intptr_t) : 0);
-      _mi_memzero((uint8_t*)newp + start, newsize - start);
+      // and zero everything beyond the copied part up to the usable size of the new block: otherwise a later
+      // growth (in place, or moving again with a copy of the full usable size) exposes stale bytes of the slack.
+      const size_t keep  = (newsize > size ? size : newsize);
+      const size_t start = (keep >= sizeof(intptr_t) ? keep - sizeof(intptr_t) : 0);
+      _mi_memzero((uint8_t*)newp + start, mi_usable_size(newp) - start);
     }
     else if (newsize == 0) {
       ((uint8_t*)newp)[0] = 0; // work around for applications that expect zero-reallocation to be zero initialized (issue #725)
